@@ -417,19 +417,24 @@ Theorem C17_memory_file_versions : forall bs f o (ver : Z -> list (list Z)),
 Proof. exact load_mem_ver_spec. Qed.
 Print Assumptions C17_memory_file_versions.
 
-(* that hypothesis is needed: when the content differs between opens the rows of
-   different versions are mixed (block size 2: rows 0 from open 1, rows 1-2 from
-   open 2, row 3 from open 3) — the result is neither version *)
+(* that hypothesis is needed: when the content differs between opens (A at the
+   first open, B afterwards; block size 2) row 0 comes from A and rows 1-3 from B —
+   the result is neither the table of A nor the table of B *)
 Theorem C17_reopen_observable :
-  exists sch ver o t n,
+  exists sch ver o t n A B,
+    (forall k, ver k = A \/ ver k = B) /\
     load_file_mem_ver 2 sch ver o = Ok (t, n) /\
-    t = [(0, (3, [10; 21; 22; 33]))] /\ n = 3 /\
-    (forall k, load_file_time (mkFile sch (ver k)) o <> Ok (t, 1)).
+    t = [(0, (3, [10; 21; 22; 23]))] /\ n = 3 /\
+    load_file_time (mkFile sch A) o <> Ok (t, 1) /\
+    load_file_time (mkFile sch B) o <> Ok (t, 1).
 Proof.
-  exists [(0, 3)], (fun k => [[10 * k]; [10 * k + 1]; [10 * k + 2]; [10 * k + 3]]), (mkOpts None [] []),
-         [(0, (3, [10; 21; 22; 33]))], 3.
-  repeat split; try (vm_compute; reflexivity).
-  intros k H. cbv in H. injection H as H0 H1 H2 H3. lia.
+  exists [(0, 3)], (fun k => if k =? 1 then [[10]; [11]; [12]; [13]] else [[20]; [21]; [22]; [23]]),
+         (mkOpts None [] []), [(0, (3, [10; 21; 22; 23]))], 3,
+         [[10]; [11]; [12]; [13]], [[20]; [21]; [22]; [23]].
+  repeat match goal with |- _ /\ _ => split end; try (vm_compute; reflexivity).
+  - intros k. destruct (k =? 1); [left|right]; reflexivity.
+  - vm_compute. discriminate.
+  - vm_compute. discriminate.
 Qed.
 Print Assumptions C17_reopen_observable.
 
